@@ -2,7 +2,7 @@
 (* Trace specification for C18: circuits returned by diagonalize() and SBRG() *)
 (* are judged by their postconditions, independently of how they were found:  *)
 (* TLC applies the recorded rotation gates itself.                            *)
-EXTENDS Circuit, StabSem, PauliPoly, TraceBase
+EXTENDS Circuit, StabSem, PauliPoly, DiagAlg, TraceBase
 
 DecGate(w) == [k |-> "gen", qs |-> w.qs, g |-> Dec(w.g)]
 Gates == [j \in 1..Len(Rec.gates) |-> DecGate(Rec.gates[j])]
@@ -33,15 +33,24 @@ CondenseOK == (Rec.op = "condense" /\ Done) =>
     /\ Rec.letters = [a \in 1..Len(sup) |-> P.s[sup[a]]]
 OnsiteOK == (Rec.op = "onsite" /\ Done) => Rec.val = (Supp(Dec(Rec.p)) \subseteq {Rec.i0})
 \* pauli_diagonalize2: sign-free rotations bring an anticommuting pair to (Z, X or Y) on qubit i0
-RotS(G, P) == [Rot(G, P) EXCEPT !.k = 0]
-RECURSIVE RotSeqS(_, _, _)
-RotSeqS(gens, P, j) == IF j > Len(gens) THEN P ELSE RotSeqS(gens, RotS(Dec(gens[j]), P), j + 1)
+RotSP(G, P) == [Rot(G, P) EXCEPT !.k = 0]
+RECURSIVE RotSeqSP(_, _, _)
+RotSeqSP(gens, P, j) == IF j > Len(gens) THEN P ELSE RotSeqSP(gens, RotSP(Dec(gens[j]), P), j + 1)
 Diag2OK == (Rec.op = "diag2" /\ Done) =>
     LET g1 == Dec(Rec.g1)  g2 == Dec(Rec.g2)  n == NQ(g1) IN
-    /\ RotSeqS(Rec.gens, g1, 1) = ZOp(Rec.i0, n) /\ Dec(Rec.out1) = ZOp(Rec.i0, n)
-    /\ Dec(Rec.out2) = RotSeqS(Rec.gens, g2, 1)
+    /\ RotSeqSP(Rec.gens, g1, 1) = ZOp(Rec.i0, n) /\ Dec(Rec.out1) = ZOp(Rec.i0, n)
+    /\ Dec(Rec.out2) = RotSeqSP(Rec.gens, g2, 1)
     /\ Supp(Dec(Rec.out2)) = {Rec.i0} /\ Dec(Rec.out2).s[Rec.i0] \in {1, 2}
 
+\* L2 conformance (model drift, never a verdict): the transcribed case analysis of DiagAlg.tla returns the very
+\* generators the library returned
+Drift_Diag2 == (Rec.op = "diag2" /\ Done) =>
+    LET d == Diag2Impl(BitsOf(Dec(Rec.g1)), BitsOf(Dec(Rec.g2)), Rec.i0) IN
+    [j \in 1..Len(Rec.gens) |-> BitsOf(Dec(Rec.gens[j]))] = d.gens
+Drift_Diag1 == (Rec.op = "diag" /\ Done /\ Rec.causal = FALSE) =>
+    LET gens == Diag1Impl(BitsOf(Dec(Rec.p)), Rec.i0) IN
+    /\ Len(gens) = Len(Rec.gates)
+    /\ \A j \in 1..Len(gens) : Sigma(gens[j], 0) = Place(Dec(Rec.gates[j].g), Rec.gates[j].qs, NQ(Dec(Rec.p)))
 \* diagonalize(state): forward decodes to |0..0>, backward re-encodes
 TRw(t) == DecRows(t.rows)
 StateDiagOK == (Rec.op = "diagstate" /\ Done) =>
@@ -53,9 +62,12 @@ StateDiagOK == (Rec.op = "diagstate" /\ Done) =>
 DecT(w) == [p |-> Dec(w[1]), c |-> <<w[2], w[3]>>, e |-> w[4]]
 Terms(ws) == [j \in 1..Len(ws) |-> DecT(ws[j])]
 AllCommute(x) == \A i, j \in 1..Len(x) : ~Anti(x[i].p, x[j].p)
+\* coefficients are exact dyadics within the record's scale (inexact floats are recorded with exponent 99)
+WFT(ws) == \A j \in 1..Len(ws) : ws[j][4] \in 0..Rec.E
+SBRGWellFormedOK == (Rec.op = "sbrg" /\ Done) => WFT(Rec.h) /\ WFT(Rec.heff) /\ (Has("fwd") => WFT(Rec.fwd))
 SBRGDiagOK == (Rec.op = "sbrg" /\ Done) =>
     LET heff == Terms(Rec.heff) IN \A j \in 1..Len(heff) : \A q \in 1..NQ(heff[j].p) : heff[j].p.s[q] \in {0, 3}
-SBRGExactOK == (Rec.op = "sbrg" /\ Done) =>
+SBRGExactOK == (Rec.op = "sbrg" /\ Done /\ WFT(Rec.h) /\ WFT(Rec.heff) /\ (Has("fwd") => WFT(Rec.fwd))) =>
     LET H == Terms(Rec.h)  heff == Terms(Rec.heff)
         img == [j \in 1..Len(H) |-> [H[j] EXCEPT !.p = Forward(Gates, @)]] IN
     /\ \A j \in 1..Len(Gates) : Herm(Gates[j].g)
